@@ -69,24 +69,28 @@ Definition mstep (s : mstate) (e : mev) : verdict :=
       end
   | MJournalBad _ => Reject 7
   | MJournal slot gen active exts =>
+      let fresh_issue :=
+        if slot =? j_slot s then Reject 2
+        else if negb (gen =? j_gen s + 1) then Reject 3
+        else if p_data s then (if active then Reject 6 else Reject 5)
+        else
+          match active, j_active s with
+          | true, Some old =>
+              (* re-journaling while a journal is active (failed-batch scrub): same or fewer blocks *)
+              if exts_within exts old
+              then Accept (mkms (j_gen s) (j_slot s) (j_active s) (Some (slot, gen, Some exts)) false (p_meta s) (m_gen s) false (txns s))
+              else Reject 11
+          | true, None =>
+              Accept (mkms (j_gen s) (j_slot s) (j_active s) (Some (slot, gen, Some exts)) false (p_meta s) (m_gen s) false (txns s))
+          | false, _ =>
+              Accept (mkms (j_gen s) (j_slot s) (j_active s) (Some (slot, gen, None)) false (p_meta s) (m_gen s) false (txns s))
+          end in
       match p_journal s with
-      | Some _ => Reject 4
-      | None =>
-          if slot =? j_slot s then Reject 2
-          else if negb (gen =? j_gen s + 1) then Reject 3
-          else if p_data s then (if active then Reject 6 else Reject 5)
-          else
-            match active, j_active s with
-            | true, Some old =>
-                (* re-journaling while a journal is active (failed-batch scrub): same or fewer blocks *)
-                if exts_within exts old
-                then Accept (mkms (j_gen s) (j_slot s) (j_active s) (Some (slot, gen, Some exts)) false (p_meta s) (m_gen s) false (txns s))
-                else Reject 11
-            | true, None =>
-                Accept (mkms (j_gen s) (j_slot s) (j_active s) (Some (slot, gen, Some exts)) false (p_meta s) (m_gen s) false (txns s))
-            | false, _ =>
-                Accept (mkms (j_gen s) (j_slot s) (j_active s) (Some (slot, gen, None)) false (p_meta s) (m_gen s) false (txns s))
-            end
+      | Some (pslot, pgen, _) =>
+          (* an un-synced journal write may be re-issued (after a failed write or fsync): same slot,
+             same generation; the slot checksum makes either version or neither visible *)
+          if (pslot =? slot) && (pgen =? gen) then fresh_issue else Reject 4
+      | None => fresh_issue
       end
   | MMetaBad => Reject 10
   | MMeta copy7 gen =>
@@ -98,7 +102,7 @@ Definition mstep (s : mstate) (e : mev) : verdict :=
         | None, None =>
             if p_data s then Reject 8
             else if negb (Bool.eqb copy7 (N.odd gen)) then Reject 9
-            else if negb (m_gen s <? gen) then Reject 9
+            else if gen <? m_gen s then Reject 9
             else Accept (mkms (j_gen s) (j_slot s) (j_active s) (p_journal s) (p_data s) true gen false (txns s))
         | _, _ => Reject 8
         end
